@@ -398,18 +398,22 @@ class World(object):
         else:
             oc, oi, od = s._capture_calls, s._invoke_calls, s.delete_calls
             names = []
+            largs = []
+            self._legacy_args = largs
 
             def capture(batch_size):
                 calls = oc(batch_size)
                 del names[:]
+                del largs[:]
                 names.extend([c.target_method_name.split('.')[-1] for c in calls])
+                largs.extend([dict(c.method_arguments or {}) for c in calls])
                 return calls
 
             def invoke(prepared):
                 g = getattr(_TL, 'gate', None)
                 for k, one in enumerate(prepared):
                     if g is not None:
-                        g.park('invoke', names[k] if k < len(names) else None)
+                        g.park('invoke', (names[k], k) if k < len(names) else None)
                     oi([one])
 
             def delete(db_calls):
@@ -536,7 +540,12 @@ class World(object):
                 ev.update(kind='lpoll')
             elif kind in ('linv', 'ldel'):
                 if kind == 'linv' and self.lpoll.at and self.lpoll.at[1]:
-                    ev['func'] = self.lpoll.at[1]
+                    nm_, k_ = self.lpoll.at[1]
+                    ev['func'] = nm_
+                    la = getattr(self, '_legacy_args', [])
+                    if k_ < len(la) and la[k_].get('task_ex_id'):
+                        ev['key'] = 'th_r_t_s-%s' % la[k_]['task_ex_id'] if nm_ == '_refresh_task_state' else ''
+                        ev['args'] = {}
                 self.lpoll.step()
                 if self.lpoll.error is not None:
                     ev['exc'] = type(self.lpoll.error).__name__
